@@ -297,6 +297,7 @@ type InRef struct {
 	Off    int32  `json:"off"`
 	Amount string `json:"amount"` // decimal, as cited by the spender
 	Frozen int64  `json:"frozen,omitempty"`
+	Raw    string `json:"raw,omitempty"` // hex of the cited amount bytes when a non-canonical encoding is wanted
 }
 
 // OutSpec is one output to create.
@@ -319,6 +320,7 @@ type TxSpec struct {
 	Contract string    `json:"contract,omitempty"`
 	ConAmt   int64     `json:"conamt,omitempty"` // amount transferred to the contract with the call
 	Desc     string    `json:"desc,omitempty"`
+	Coinbase bool      `json:"coinbase,omitempty"` // adversarial: coinbase flag on a submitted transaction
 }
 
 func (r InRef) addr() string {
@@ -435,14 +437,18 @@ func BuildTx(spec *TxSpec, pre *PreExecResult) *pb.Transaction {
 		v = 3
 	}
 	tx := &pb.Transaction{Version: v, Nonce: fmt.Sprintf("n%d", spec.Seq), Timestamp: int64(spec.Seq), Initiator: k.Address,
-		AuthRequire: []string{k.Address}, Desc: []byte(spec.Desc)}
+		AuthRequire: []string{k.Address}, Desc: []byte(spec.Desc), Coinbase: spec.Coinbase}
 	for _, r := range spec.Ins {
 		id, _ := hex.DecodeString(r.Txid)
 		a, _ := new(big.Int).SetString(r.Amount, 10)
 		if a == nil {
 			a = big.NewInt(0)
 		}
-		tx.TxInputs = append(tx.TxInputs, &protos.TxInput{RefTxid: id, RefOffset: r.Off, FromAddr: []byte(r.addr()), Amount: a.Bytes(), FrozenHeight: r.Frozen})
+		ab := a.Bytes()
+		if r.Raw != "" {
+			ab, _ = hex.DecodeString(r.Raw)
+		}
+		tx.TxInputs = append(tx.TxInputs, &protos.TxInput{RefTxid: id, RefOffset: r.Off, FromAddr: []byte(r.addr()), Amount: ab, FrozenHeight: r.Frozen})
 	}
 	for _, o := range spec.Outs {
 		tx.TxOutputs = append(tx.TxOutputs, &protos.TxOutput{ToAddr: []byte(o.addr()), Amount: o.amountBytes(), FrozenHeight: o.Frozen})
